@@ -196,6 +196,8 @@ pub struct GenCfg {
     pub inter_nullable: bool,
     /// intersections of array / tuple types
     pub inter_lists: bool,
+    /// intersection members with an index signature
+    pub inter_indexed: bool,
 }
 
 impl Default for GenCfg {
@@ -215,6 +217,7 @@ impl Default for GenCfg {
             only_null: false,
             inter_nullable: true,
             inter_lists: true,
+            inter_indexed: true,
         }
     }
 }
@@ -497,6 +500,14 @@ impl<'c> G<'c> {
             let cands: Vec<usize> = self.object_defs.iter().copied().filter(|i| *i < self.ndefs_before).collect();
             if s.chance(1, 3) && !cands.is_empty() {
                 parts.push(D::Ref(cands[s.below(cands.len())]));
+            } else if self.cfg.index && self.cfg.inter_indexed && s.chance(1, 6) {
+                // a member with an index signature ({[k: string]: number} & {a: number})
+                let vt = match s.below(3) {
+                    0 => D::Num,
+                    1 => D::Str,
+                    _ => D::Union(vec![D::Str, D::Num]),
+                };
+                parts.push(D::Object { props: vec![], index: Some(Box::new(vt)) });
             } else {
                 parts.push(self.object(s, depth, false));
             }
@@ -570,6 +581,18 @@ impl<'c> G<'c> {
                 let optional = s.chance(1, 4);
                 let ty = self.ty(s, depth.saturating_sub(2), optional);
                 props.push(Prop { key, ty, optional });
+            }
+            // now and then a branch is an intersection whose members disagree on the tag's literal set
+            // ({type: "a" | "zz"; ...} & {type: "a"}): the narrower set is the branch's tag
+            if !indexed && self.cfg.inter && s.chance(1, 8) {
+                if let D::StrLit(l) = &props[0].ty.clone() {
+                    let mut wide = props.clone();
+                    wide[0].ty = D::Union(vec![D::StrLit(l.clone()), D::StrLit("zz".to_string())]);
+                    let narrow = vec![Prop { key: tag.clone(), ty: D::StrLit(l.clone()), optional: false }];
+                    let (a, b) = (D::Object { props: wide, index: None }, D::Object { props: narrow, index: None });
+                    branches.push(if s.chance(1, 2) { D::Inter(vec![a, b]) } else { D::Inter(vec![b, a]) });
+                    continue;
+                }
             }
             branches.push(D::Object { props, index: if indexed { Some(Box::new(D::Str)) } else { None } });
         }
